@@ -527,7 +527,9 @@ func (w *World) Visit(h *StoreH, name string, asc bool, api string, tid int, wv 
 	td := w.trueDepths(h, c)
 	res := []Ev{}
 	var err error
-	evictIn := c != nil && !h.RO && w.rng.Intn(4) == 0
+	// (never in the fault driver: EvictSomeItems has no error result, a fault
+	// that strikes inside it is swallowed by design)
+	evictIn := w.rng.Intn(4) == 0 && c != nil && !h.RO && !w.noEvictIn
 	ev["evictin"] = evictIn
 	add := func(i *gkvlite.Item, d int64) bool {
 		w.lent(i)
